@@ -4,6 +4,7 @@ import (
 	"fmt"
 	"go/token"
 	"go/types"
+	"strings"
 
 	"golang.org/x/tools/go/ssa"
 
@@ -585,4 +586,81 @@ func runC11(c *engine.Ctx) {
 	checkPoolKey(c, "R10")
 	// ---- R11 closing a (rate-limited) work connection closes the real one (shared with C10.R12) ----
 	checkWrapperCloseFns(c, "R11")
+
+	// ---- R12 a user connection parked in a group's hand-off is released when the group goes away ----
+	c.Rule("R12", "TCPGroup / TCPMuxGroup.CloseListener close the hand-off channel on the path where the last member left: the group worker blocked in the hand-off send is woken (recovered send) and closes the user connection")
+	n12 := 0
+	for _, sym := range []string{"server/group.TCPGroup.CloseListener", "server/group.TCPMuxGroup.CloseListener"} {
+		f := fn(c, sym)
+		if f == nil {
+			continue
+		}
+		n12++
+		recv := f.Params[0]
+		c.AllPaths(sym+">wakes-worker", engine.PathCheck{Fn: f, Sink: engine.IsReturn,
+			Event: func(in ssa.Instruction) string {
+				if call, ok := in.(ssa.CallInstruction); ok {
+					if _, isDefer := in.(*ssa.Defer); isDefer {
+						return ""
+					}
+					if b, ok := call.Common().Value.(*ssa.Builtin); ok && b.Name() == "close" {
+						if _, isChan := call.Common().Args[0].Type().Underlying().(*types.Chan); isChan {
+							if _, base := engine.LoadedField(call.Common().Args[0]); base == ssa.Value(recv) {
+								return "close-chan"
+							}
+						}
+					}
+				}
+				return ""
+			},
+			Pred: func(st *engine.PathState) string {
+				for _, l := range st.Lits {
+					if arg, ok := lenIsZero(l); ok {
+						if lf, b := engine.LoadedField(arg); lf != nil && b == ssa.Value(recv) {
+							if _, isSl := lf.Type().Underlying().(*types.Slice); isSl && !st.HasEvent("close-chan") {
+								return "the last member left without closing the group's hand-off channel: a user connection parked in the hand-off is never bridged and never closed"
+							}
+						}
+					}
+				}
+				return ""
+			}}, "last leave closes the hand-off channel")
+	}
+	c.Floor(n12, 2)
+
+	// ---- R13 the announced source address is the user's, whatever its family ----
+	c.Rule("R13", "outside the NAT-hole package no network literal restricts the address family (tcp4/tcp6/udp4/udp6): the user's address announced in StartWorkConn is resolved with \"tcp\" / \"udp\" (an IPv6 user would be announced with an empty address)")
+	n13, fam := 0, 0
+	for _, f := range c.P.RepoFuncs() {
+		if f.Pkg == nil {
+			continue
+		}
+		pth := f.Pkg.Pkg.Path()
+		if !(strings.Contains(pth, "/server") || strings.Contains(pth, "/client") || strings.Contains(pth, "/pkg/util") || strings.Contains(pth, "/pkg/proto")) {
+			continue
+		}
+		engine.ForEachInstr(f, func(in ssa.Instruction) {
+			call, ok := in.(ssa.CallInstruction)
+			if !ok {
+				return
+			}
+			o := engine.CalleeObj(call)
+			if o == nil || o.Pkg() == nil || o.Pkg().Path() != "net" || len(call.Common().Args) == 0 {
+				return
+			}
+			nw, ok := engine.ConstString(call.Common().Args[0])
+			if !ok {
+				return
+			}
+			switch nw {
+			case "tcp", "udp":
+				n13++
+			case "tcp4", "tcp6", "udp4", "udp6":
+				fam++
+				c.Violate(c.P.FuncName(f)+">"+o.Name()+"-network", in.Pos(), nil, "net.%s is called with the family-restricted network %q: addresses of the other family fail to resolve (the failure is tolerated, the announced user address becomes empty)", o.Name(), nw)
+			}
+		})
+	}
+	c.Check(n13 >= 5, "family-agnostic-network-literals", token.NoPos, n13, nil, "positive control: %d net.* calls with \"tcp\"/\"udp\" seen, %d family-restricted", n13, fam)
+	c.Floor(n13, 5)
 }
